@@ -129,7 +129,7 @@ Proof.
   - destruct (tm_child t2 i) as [g|]; [|cbn; reflexivity]. rewrite Hg.
     destruct (tm_glob t2 g) as [gi|]; [|cbn; reflexivity].
     destruct (child_lookup i (g_children gi)); [|cbn; reflexivity].
-    destruct (change_multi gi i r) as [[gi' rm]|]; [|cbn; reflexivity].
+    destruct (change_multi cfg gi i r) as [[gi' rm]|]; [|cbn; reflexivity].
     destruct rm.
     + pose proof (treq_remove_timeout P t1 t2 (g_height gi) (TGid g) H) as R.
       destruct (tm_remove_timeout t1 (g_height gi) (TGid g)), (tm_remove_timeout t2 (g_height gi) (TGid g)); cbn in R |- *; try contradiction; auto.
